@@ -25,10 +25,10 @@ import (
 
 type pbBuilder struct {
 	names map[reflect.Type]string
-	cfg  model.Cfg
-	file *descriptorpb.FileDescriptorProto
-	n    int
-	ok   bool // false when the type has no protobuf schema (nested slices etc.)
+	cfg   model.Cfg
+	file  *descriptorpb.FileDescriptorProto
+	n     int
+	ok    bool // false when the type has no protobuf schema (nested slices etc.)
 }
 
 func pbLabel(l descriptorpb.FieldDescriptorProto_Label) *descriptorpb.FieldDescriptorProto_Label {
